@@ -1,0 +1,261 @@
+//go:build verif
+
+package sonic
+
+// Contracts for IO and file (properties C01, C02, C03, C14, C13).
+
+// Set once by the constructors; survive call-outs to user callbacks.
+//@ immutable [C01,C02,C14] file.ioc fileReadReactor.file fileWriteReactor.file IO.poller constructors newFile, NewIO
+
+//@ func ext:syscall.Read
+//@   trusted
+//@   ensures err == nil ==> 0 <= n && n <= len(p)
+//@   modifies mem(p)
+
+//@ func ext:syscall.Write
+//@   trusted
+//@   ensures err == nil ==> 0 <= n && n <= len(p)
+//@   modifies nothing
+
+//@ pred fInv(f *file) =
+//@   f.ioc != nil && f.ioc.poller != nil && internal.pInv(f.ioc.poller) &&
+//@   f.readReactor.file == f && f.writeReactor.file == f && 0 <= f.slot.Fd
+
+//@ pred armedR(f *file) = internal.armed(&f.slot, internal.PollerReadEvent)
+//@ pred armedW(f *file) = internal.armed(&f.slot, internal.PollerWriteEvent)
+
+// Rely on completion callbacks (user code): when one returns, the poller is consistent and the
+// dispatch depth is what it was (every library entry point restores it, see C14).
+//@ func fnparam:(*file).*.cb
+//@   trusted
+//@   ensures internal.pInv(f.ioc.poller) && f.ioc.Dispatched == old(f.ioc.Dispatched)
+
+//@ func (*file).Closed
+//@   pure
+
+//@ func (*IO).Register
+//@   prop C13
+//@   requires slot != nil && 0 <= slot.Fd
+//@ func (*IO).Deregister
+//@   prop C13
+//@   requires slot != nil && 0 <= slot.Fd
+
+//@ func (*file).Read
+//@   prop C02
+//@   requires fInv(f)
+//@   // the count is what the kernel moved: positive on success, zero with an error
+//@   ensures [ok] result1 == nil ==> 0 < result0 && result0 <= len(b)
+//@   ensures [err] result1 != nil ==> result0 == 0
+//@   modifies mem(b)
+
+//@ func (*file).Write
+//@   prop C02
+//@   requires fInv(f)
+//@   ensures [ok] result1 == nil ==> 0 < result0 && result0 <= len(b)
+//@   ensures [err] result1 != nil ==> result0 == 0
+//@   modifies nothing
+
+//@ func (*file).scheduleRead
+//@   prop C01, C02, C03
+//@   requires fInv(f) && cb != nil && !armedR(f)
+//@   // either the callback runs now (closed, or the registration failed) or the read is armed
+//@   consumes cb unless armedR(f)
+//@   ensures [armed] invoked(cb) == 0 ==> f.readReactor.readSoFar == readSoFar && f.slot.Handlers[0] == f.readReactor.onRead &&
+//@           f.ioc.poller.pending == old(f.ioc.poller.pending) + 1
+//@   ensures [write-side] invoked(cb) == 0 ==> armedW(f) == old(armedW(f))
+//@   ensures [reactor-kept] invoked(cb) == 0 ==> f.readReactor.b == old(f.readReactor.b) && f.readReactor.readAll == old(f.readReactor.readAll) &&
+//@           f.readReactor.cb == old(f.readReactor.cb)
+//@   ensures [depth] f.ioc.Dispatched == old(f.ioc.Dispatched)
+
+//@ func (*file).asyncReadNow
+//@   prop C01, C02, C14
+//@   requires fInv(f) && cb != nil && !armedR(f) && 0 <= readSoFar && readSoFar <= len(b)
+//@   requires f.readReactor.b == b && f.readReactor.readAll == readAll
+//@   // chunk k lands right after chunk k-1: the transport is handed exactly b[readSoFar:]
+//@   assert call file).Read: alias(arg1, b[readSoFar:])
+//@   // the count reported is the progress made; success of ReadAll means the whole buffer
+//@   assert call cb: old(readSoFar) <= arg1 && arg1 <= len(b) && (arg0 == nil && readAll ==> arg1 == len(b)) && (arg0 == nil && !readAll ==> arg1 > old(readSoFar))
+//@   consumes cb unless armedR(f)
+//@   ensures [armed] invoked(cb) == 0 ==> f.slot.Handlers[0] == f.readReactor.onRead &&
+//@           readSoFar <= f.readReactor.readSoFar && f.readReactor.readSoFar <= len(b) &&
+//@           f.readReactor.b == b && f.readReactor.readAll == readAll
+//@   ensures [depth] f.ioc.Dispatched == old(f.ioc.Dispatched)
+
+//@ func fnparam:(*fileReadReactor).onRead.cb
+//@   trusted
+//@   ensures internal.pInv(r.file.ioc.poller) && r.file.ioc.Dispatched == old(r.file.ioc.Dispatched)
+
+// The handler the poller dispatches for a deferred read: completes the operation recorded in
+// the reactor exactly once (or re-arms it for the remainder of a ReadAll).
+//@ func (*fileReadReactor).onRead
+//@   prop C01, C02
+//@   requires r.file != nil && fInv(r.file) && &r.file.readReactor == r && !armedR(r.file)
+//@   requires r.cb != nil && 0 <= r.readSoFar && r.readSoFar <= len(r.b)
+//@   // a cancellation or poller error is reported with the progress made so far
+//@   assert call cb: err != nil && arg0 == err && arg1 == old(r.readSoFar)
+//@   consumes r.cb unless armedR(r.file)
+//@   ensures [depth] r.file.ioc.Dispatched == old(r.file.ioc.Dispatched)
+
+// The wrapper that runs an inline completion one level deeper.
+//@ func (*file).asyncRead$1
+//@   prop C14, C01
+//@   requires f != nil && fInv(f) && cb != nil && 0 <= f.ioc.Dispatched && f.ioc.Dispatched < MaxCallbackDispatch
+//@   // nesting of inline completions never exceeds the limit
+//@   assert call cb: 1 <= f.ioc.Dispatched && f.ioc.Dispatched <= MaxCallbackDispatch && arg0 == err && arg1 == n
+//@   consumes cb
+//@   ensures [depth] f.ioc.Dispatched == old(f.ioc.Dispatched)
+
+//@ func (*file).asyncRead
+//@   prop C01, C02, C14
+//@   requires fInv(f) && cb != nil && !armedR(f) && 0 <= f.ioc.Dispatched && f.ioc.Dispatched <= MaxCallbackDispatch
+//@   inline call (*file).asyncReadNow
+//@   consumes cb unless armedR(f)
+//@   // at the limit nothing is attempted inline: the operation is deferred to the poller
+//@   assert call file).Read: f.ioc.Dispatched < MaxCallbackDispatch
+//@   ensures [armed] invoked(cb) == 0 ==> f.readReactor.b == b && f.readReactor.readAll == readAll && f.readReactor.cb == cb &&
+//@           f.slot.Handlers[0] == f.readReactor.onRead && 0 <= f.readReactor.readSoFar && f.readReactor.readSoFar <= len(b)
+//@   ensures [depth] f.ioc.Dispatched == old(f.ioc.Dispatched)
+
+// --- write side (mirror of the read side) ---
+
+//@ func (*file).scheduleWrite
+//@   prop C01, C02, C03
+//@   requires fInv(f) && cb != nil && !armedW(f)
+//@   // either the callback runs now (closed, or the registration failed) or the write is armed
+//@   consumes cb unless armedW(f)
+//@   ensures [armed] invoked(cb) == 0 ==> f.writeReactor.wroteSoFar == wroteSoFar && f.slot.Handlers[1] == f.writeReactor.onWrite &&
+//@           f.ioc.poller.pending == old(f.ioc.poller.pending) + 1
+//@   ensures [read-side] invoked(cb) == 0 ==> armedR(f) == old(armedR(f))
+//@   ensures [reactor-kept] invoked(cb) == 0 ==> f.writeReactor.b == old(f.writeReactor.b) && f.writeReactor.writeAll == old(f.writeReactor.writeAll) &&
+//@           f.writeReactor.cb == old(f.writeReactor.cb)
+//@   ensures [depth] f.ioc.Dispatched == old(f.ioc.Dispatched)
+
+//@ func (*file).asyncWriteNow
+//@   prop C01, C02, C14
+//@   requires fInv(f) && cb != nil && !armedW(f) && 0 <= wroteSoFar && wroteSoFar <= len(b)
+//@   requires f.writeReactor.b == b && f.writeReactor.writeAll == writeAll
+//@   // chunk k lands right after chunk k-1: the transport is handed exactly b[wroteSoFar:]
+//@   assert call file).Write: alias(arg1, b[wroteSoFar:])
+//@   // the count reported is the progress made; success of WriteAll means the whole buffer
+//@   assert call cb: old(wroteSoFar) <= arg1 && arg1 <= len(b) && (arg0 == nil && writeAll ==> arg1 == len(b)) && (arg0 == nil && !writeAll ==> arg1 > old(wroteSoFar))
+//@   consumes cb unless armedW(f)
+//@   ensures [armed] invoked(cb) == 0 ==> f.slot.Handlers[1] == f.writeReactor.onWrite &&
+//@           wroteSoFar <= f.writeReactor.wroteSoFar && f.writeReactor.wroteSoFar <= len(b) &&
+//@           f.writeReactor.b == b && f.writeReactor.writeAll == writeAll
+//@   ensures [depth] f.ioc.Dispatched == old(f.ioc.Dispatched)
+
+
+//@ func fnparam:(*fileWriteReactor).onWrite.cb
+//@   trusted
+//@   ensures internal.pInv(r.file.ioc.poller) && r.file.ioc.Dispatched == old(r.file.ioc.Dispatched)
+
+// The handler the poller dispatches for a deferred write: completes the operation recorded in
+// the reactor exactly once (or re-arms it for the remainder of a WriteAll).
+//@ func (*fileWriteReactor).onWrite
+//@   prop C01, C02
+//@   requires r.file != nil && fInv(r.file) && &r.file.writeReactor == r && !armedW(r.file)
+//@   requires r.cb != nil && 0 <= r.wroteSoFar && r.wroteSoFar <= len(r.b)
+//@   // a cancellation or poller error is reported with the progress made so far
+//@   assert call cb: err != nil && arg0 == err && arg1 == old(r.wroteSoFar)
+//@   consumes r.cb unless armedW(r.file)
+//@   ensures [depth] r.file.ioc.Dispatched == old(r.file.ioc.Dispatched)
+
+// The wrapper that runs an inline completion one level deeper.
+//@ func (*file).asyncWrite$1
+//@   prop C14, C01
+//@   requires f != nil && fInv(f) && cb != nil && 0 <= f.ioc.Dispatched && f.ioc.Dispatched < MaxCallbackDispatch
+//@   // nesting of inline completions never exceeds the limit
+//@   assert call cb: 1 <= f.ioc.Dispatched && f.ioc.Dispatched <= MaxCallbackDispatch && arg0 == err && arg1 == n
+//@   consumes cb
+//@   ensures [depth] f.ioc.Dispatched == old(f.ioc.Dispatched)
+
+//@ func (*file).asyncWrite
+//@   prop C01, C02, C14
+//@   requires fInv(f) && cb != nil && !armedW(f) && 0 <= f.ioc.Dispatched && f.ioc.Dispatched <= MaxCallbackDispatch
+//@   inline call (*file).asyncWriteNow
+//@   consumes cb unless armedW(f)
+//@   // at the limit nothing is attempted inline: the operation is deferred to the poller
+//@   assert call file).Write: f.ioc.Dispatched < MaxCallbackDispatch
+//@   ensures [armed] invoked(cb) == 0 ==> f.writeReactor.b == b && f.writeReactor.writeAll == writeAll && f.writeReactor.cb == cb &&
+//@           f.slot.Handlers[1] == f.writeReactor.onWrite && 0 <= f.writeReactor.wroteSoFar && f.writeReactor.wroteSoFar <= len(b)
+//@   ensures [depth] f.ioc.Dispatched == old(f.ioc.Dispatched)
+
+// --- cancel / close -------------------------------------------------------------------------
+
+// open descriptors (ghost): FDOPEN[fd] == 1 while the process owns descriptor fd
+//@ ghostmap FDOPEN
+
+//@ func ext:syscall.Close
+//@   trusted
+//@   ensures forall k :: FDOPEN[k] == ((k == fd) ? 0 : old(FDOPEN[k]))
+//@   modifies FDOPEN
+
+//@ func (*file).cancelReads
+//@   prop C01
+//@   requires fInv(f) && (armedR(f) ==> f.slot.Handlers[0] != nil)
+//@   // the interest is removed before the handler runs, and the handler gets a non-nil (cancellation) error
+//@   assert call Handlers: !armedR(f) && arg0 != nil
+//@   // an armed read is completed exactly once; nothing is invoked when no read is in flight
+//@   consumes f.slot.Handlers[0] unless !old(armedR(f))
+//@   ensures [idle] !old(armedR(f)) ==> invoked(old(f.slot.Handlers[0])) == 0 && f.ioc.poller.pending == old(f.ioc.poller.pending)
+
+//@ func (*file).cancelWrites
+//@   prop C01
+//@   requires fInv(f) && (armedW(f) ==> f.slot.Handlers[1] != nil)
+//@   assert call Handlers: !armedW(f) && arg0 != nil
+//@   consumes f.slot.Handlers[1] unless !old(armedW(f))
+//@   ensures [idle] !old(armedW(f)) ==> invoked(old(f.slot.Handlers[1])) == 0 && f.ioc.poller.pending == old(f.ioc.poller.pending)
+
+//@ func (*file).Close
+//@   prop C01, C13, C03
+//@   requires fInv(f)
+//@   // only the first Close touches the descriptor: a later one cannot close a descriptor number
+//@   // that the kernel may meanwhile have handed to someone else
+//@   assert call syscall.Close: old(f.closed) == 0 && arg0 == f.slot.Fd
+//@   ensures [already-closed] old(f.closed) != 0 ==> result != nil && f.closed == old(f.closed) &&
+//@           (forall k :: FDOPEN[k] == old(FDOPEN[k]))
+//@   // after Close returns no operation of the object is armed, so no callback can be dispatched
+//@   ensures [disarmed] old(f.closed) == 0 ==> !armedR(f) && !armedW(f) && f.closed == 1
+//@   ensures [accounting] old(f.closed) == 0 ==> f.ioc.poller.pending == old(f.ioc.poller.pending) - (old(armedR(f)) ? 1 : 0) - (old(armedW(f)) ? 1 : 0)
+//@   // Close releases the descriptor the object owns, whatever the poller answers
+//@   ensures [released] old(f.closed) == 0 ==> FDOPEN[f.slot.Fd] == 0
+
+// --- the event loop (C03) -------------------------------------------------------------------
+
+//@ pred ioInv(ioc *IO) = ioc.poller != nil && internal.pInv(ioc.poller)
+
+//@ func (*IO).Pending
+//@   requires ioc.poller != nil
+//@   pure
+
+//@ func (*IO).poll
+//@   prop C03
+//@   requires ioInv(ioc)
+//@   // a wait interrupted by a signal is never wrapped into an error
+//@   assert call os.NewSyscallError: arg1 != errno(4) && arg1 != sonicerrors.ErrTimeout
+//@   // nothing ready within the timeout is a timeout, not success
+//@   ensures [timeout] result1 == nil && result0 == 0 ==> timeoutMs < 0
+//@   ensures [count] result1 == nil ==> result0 >= 0
+//@   ensures [error-count] result1 != nil ==> result0 == 0
+//@   ensures [inv] ioInv(ioc)
+
+//@ func (*IO).RunPending
+//@   prop C03
+//@   requires ioInv(ioc)
+//@   loop 1 invariant ioInv(ioc)
+//@   // the loop is entered only while something is pending: RunPending never blocks with nothing in flight
+//@   assert call RunOne: ioc.poller.pending > 0
+//@   // and returns success exactly when nothing is pending any more
+//@   ensures [drained] result == nil ==> ioc.poller.pending <= 0
+
+//@ func (*IO).RunOne
+//@   prop C03
+//@   requires ioInv(ioc)
+//@   ensures [inv] ioInv(ioc)
+
+//@ func (*IO).PollOne
+//@   prop C03
+//@   requires ioInv(ioc)
+//@   ensures [timeout] err == nil && n == 0 ==> false
+//@   ensures [count] err == nil ==> n > 0
+//@   ensures [inv] ioInv(ioc)
